@@ -750,11 +750,14 @@ class ServiceScenario(Scenario):
 
     CLASSES = ("TrivialCommunity", "TrivialCommunity2", "DiscoveryCommunity")
 
-    def __init__(self, which: int) -> None:
+    def __init__(self, which: int, interval: float = 0.5) -> None:
+        # interval: the service's walker_interval.  From len(strategies) seconds on, on_tick really sleeps between the
+        # strategies of one round (interval // len(strategies) >= 1), so an unload can land in the middle of a round.
         self.which = which
+        self.interval = interval
         self.nut = "S"
-        self.name = f"IPv8Service/unload:{self.CLASSES[which]}"
-        self.label = f"{self.CLASSES[which]}@IPv8"
+        self.name = f"IPv8Service/unload:{self.CLASSES[which]}" + ("" if interval == 0.5 else f"/interval={interval:g}")
+        self.label = f"{self.CLASSES[which]}@IPv8" + ("" if interval == 0.5 else "+slow-ticker")
 
     def variants(self, thorough: bool = False) -> tuple:
         return (*VARIANTS[:2], *MID_VARIANTS)
@@ -772,7 +775,7 @@ class ServiceScenario(Scenario):
         extra = {"TrivialCommunity": TrivialCommunity, "TrivialCommunity2": TrivialCommunity2}
         classes = {**extra, "DiscoveryCommunity": DiscoveryCommunity}
         config = {
-            "interfaces": [], "working_directory": ".", "walker_interval": 0.5,
+            "interfaces": [], "working_directory": ".", "walker_interval": self.interval,
             "logger": {"level": "CRITICAL"},
             "keys": [{"alias": "my peer", "file": None,
                       "bin": b64encode(fixtures.private_key(seed % 12, "curve25519").key_to_bin()).decode()}],
@@ -1066,6 +1069,7 @@ def all_scenarios() -> list[Scenario]:
         HiddenScenario("O"), HiddenScenario("X"), HiddenScenario("R", quick=False),
         HiddenStopScenario("X"), HiddenStopScenario("O", quick=False),
         ServiceScenario(0), ServiceScenario(1), ServiceScenario(2),
+        ServiceScenario(2, 3.0), ServiceScenario(1, 3.0),
         BootstrapScenario("dispersy-ip"), BootstrapScenario("dispersy-dns"), BootstrapScenario("udpbroadcast"),
         BootstrapServiceScenario(),
         IdentityScenario("A"), IdentityScenario("B"),
